@@ -409,6 +409,119 @@ impl ReplicationFetcher {
     }
 }
 
+/// Verification hooks (feature `verif-hooks`): a public wrapper around the crate-private fetcher,
+/// read access to its queues and a way to age the `Instant` deadlines (virtual time).
+#[cfg(feature = "verif-hooks")]
+#[allow(missing_docs)]
+pub mod verif {
+    use super::*;
+
+    #[derive(Clone, Debug, Default)]
+    pub struct VerifFetcherSnapshot {
+        /// (key, type, holder, seconds until the pending entry expires; negative = overdue)
+        pub to_be_fetched: Vec<(RecordKey, RecordType, PeerId, i64)>,
+        /// (key, type, holder, seconds until the fetch times out; negative = overdue)
+        pub on_going_fetches: Vec<(RecordKey, RecordType, PeerId, i64)>,
+        pub distance_range: Option<U256>,
+        pub farthest_acceptable_distance: Option<U256>,
+    }
+
+    fn secs_until(t: Instant, now: Instant) -> i64 {
+        if t >= now {
+            t.duration_since(now).as_secs() as i64
+        } else {
+            -(now.duration_since(t).as_secs() as i64) - 1
+        }
+    }
+
+    impl ReplicationFetcher {
+        pub(crate) fn verif_snapshot(&self) -> VerifFetcherSnapshot {
+            let now = Instant::now();
+            VerifFetcherSnapshot {
+                to_be_fetched: self
+                    .to_be_fetched
+                    .iter()
+                    .map(|((k, t, h), d)| (k.clone(), t.clone(), *h, secs_until(*d, now)))
+                    .collect(),
+                on_going_fetches: self
+                    .on_going_fetches
+                    .iter()
+                    .map(|((k, t), (h, d))| (k.clone(), t.clone(), *h, secs_until(*d, now)))
+                    .collect(),
+                distance_range: self.distance_range,
+                farthest_acceptable_distance: self
+                    .farthest_acceptable_distance
+                    .as_ref()
+                    .map(convert_distance_to_u256),
+            }
+        }
+
+        /// Make `d` elapse for every stored deadline. A deadline that would fall before the
+        /// monotonic clock's origin (machine booted recently) is clamped to "just expired",
+        /// which is equivalent since deadlines are only ever compared with `Instant::now()`.
+        pub(crate) fn verif_age(&mut self, d: Duration) {
+            let now = Instant::now();
+            let just_expired = now.checked_sub(Duration::from_millis(1)).unwrap_or(now);
+            for deadline in self.to_be_fetched.values_mut() {
+                *deadline = deadline.checked_sub(d).unwrap_or(just_expired);
+            }
+            for (_holder, deadline) in self.on_going_fetches.values_mut() {
+                *deadline = deadline.checked_sub(d).unwrap_or(just_expired);
+            }
+        }
+    }
+
+    pub struct VerifFetcher(ReplicationFetcher);
+
+    impl VerifFetcher {
+        pub const MAX_PARALLEL_FETCH: usize = super::MAX_PARALLEL_FETCH;
+        pub const FETCH_TIMEOUT: Duration = super::FETCH_TIMEOUT;
+        pub const PENDING_TIMEOUT: Duration = super::PENDING_TIMEOUT;
+
+        pub fn new(self_peer_id: PeerId) -> (Self, mpsc::Receiver<NetworkEvent>) {
+            let (tx, rx) = mpsc::channel(10_000);
+            (Self(ReplicationFetcher::new(self_peer_id, tx)), rx)
+        }
+        pub fn set_replication_distance_range(&mut self, distance_range: U256) {
+            self.0.set_replication_distance_range(distance_range)
+        }
+        pub fn add_keys(
+            &mut self,
+            holder: PeerId,
+            incoming_keys: Vec<(NetworkAddress, RecordType)>,
+            locally_stored_keys: &HashMap<RecordKey, (NetworkAddress, RecordType)>,
+        ) -> Vec<(PeerId, RecordKey)> {
+            self.0.add_keys(holder, incoming_keys, locally_stored_keys)
+        }
+        pub fn set_farthest_on_full(&mut self, farthest_in: Option<RecordKey>) {
+            self.0.set_farthest_on_full(farthest_in)
+        }
+        pub fn notify_about_new_put(
+            &mut self,
+            new_put: RecordKey,
+            record_type: RecordType,
+        ) -> Vec<(PeerId, RecordKey)> {
+            self.0.notify_about_new_put(new_put, record_type)
+        }
+        pub fn notify_fetch_early_completed(
+            &mut self,
+            key_in: RecordKey,
+            record_type: RecordType,
+        ) -> Vec<(PeerId, RecordKey)> {
+            self.0.notify_fetch_early_completed(key_in, record_type)
+        }
+        pub fn next_keys_to_fetch(&mut self) -> Vec<(PeerId, RecordKey)> {
+            self.0.next_keys_to_fetch()
+        }
+        pub fn snapshot(&self) -> VerifFetcherSnapshot {
+            self.0.verif_snapshot()
+        }
+        pub fn age(&mut self, d: Duration) {
+            self.0.verif_age(d)
+        }
+    }
+}
+
 #[cfg(test)]
 mod tests {
     use super::{ReplicationFetcher, FETCH_TIMEOUT, MAX_PARALLEL_FETCH};
